@@ -119,8 +119,8 @@ func (l *Lexer) readLeadingComments() {
 				l.hadNewlineBefore = true
 				l.ReadChar()
 			}
-			// the carriage return of a CRLF line end is not comment text
-			l.leadingComments = append(l.leadingComments, strings.TrimRight(comment.String(), " \r"))
+			// trailing white space (and the carriage return of a CRLF line end) is not comment text
+			l.leadingComments = append(l.leadingComments, strings.TrimRight(comment.String(), " \t\r"))
 		}
 
 		if !isWhitespace(l.CurrentChar) {
